@@ -1,6 +1,7 @@
 package main
 
 import (
+	"go/types"
 	"golang.org/x/tools/go/ssa"
 	"flag"
 	"fmt"
@@ -55,6 +56,13 @@ func loadAll(repo string) (*World, *Contracts) {
 	w.PureIface = func(c *ssa.CallCommon) bool {
 		ct := cs.IfaceFor(ifaceKey(c))
 		return ct != nil && ct.Pure
+	}
+	w.PureSig = func(c *ssa.CallCommon) bool {
+		if c.IsInvoke() {
+			return false
+		}
+		ct := cs.Sigs[types.TypeString(c.Value.Type().Underlying(), shortQual)]
+		return ct != nil && sigWritesNoMemory(ct)
 	}
 	w.ModSet = map[*ssa.Function]map[string]bool{}
 	w.computeModSets()
@@ -170,3 +178,19 @@ func cmdList(args []string) {
 	}
 }
 
+
+// sigWritesNoMemory: the family contract says `pure`, or assigns ghost variables only.
+func sigWritesNoMemory(ct *Contract) bool {
+	if ct.Pure {
+		return true
+	}
+	if !ct.HasAssigns {
+		return false
+	}
+	for _, a := range ct.Assigns {
+		if !a.IsList || len(a.List) != 2 || a.List[0].Atom != "key" || !strings.HasPrefix(strings.Trim(a.List[1].Atom, "\""), "$s:g:") {
+			return false
+		}
+	}
+	return true
+}
